@@ -1050,7 +1050,7 @@ func (s *vSession) recv(ws *Conn, d *vDir, who string) {
 }
 
 func (s *vSession) endpoint(ws *Conn, sendDir, recvDir *vDir, who string) {
-	var wg sync.WaitGroup
+	var wg verifrt.WG
 	wg.Add(1)
 	go func() {
 		defer wg.Done()
@@ -1186,7 +1186,7 @@ func (s *vSession) run(t *testing.T) {
 		srv := &vConn{rd: a2b, wr: b2a, mode: s.modeSrv, rng: rand.New(rand.NewPCG(s.seedSrv, 2))}
 		release := make(chan struct{})
 		var doneC, doneS atomic.Bool
-		var wg sync.WaitGroup
+		var wg verifrt.WG
 		wg.Add(2)
 		go func() {
 			defer wg.Done()
